@@ -12,7 +12,7 @@ token lists) and never regenerated from the tree under test.
  2. LISTED <=> HANDLED: TLC explores a bounded instance of the reference
     semantics per model and prints, for every listed event, a shortest history
     after which it is accepted (its witness context, lines WIT), and walks the
-    94 x 94 code space of every model from the canonical context (invariant
+    223 x 223 code space (bytes 33..255) of every model from the canonical context (invariant
     ProbeConsistent), printing the unlisted codes that are accepted (ACC);
     all other unlisted codes are rejected.  Every witness and every probed
     code is replayed on `ovniemu -l` as a one-probe trace; the observation is
@@ -42,7 +42,8 @@ NEGATIVES = [
     ("Catalogue_NegShort.cfg", "post", "histories of at most 2 events: ListedAreProcessed (post-condition) must fail", "V"),
     ("Catalogue_NegDec.cfg", "assume", "two's complement without the +1: RendererSelfTest must fail", "K"),
 ]
-PRINTABLE = [chr(i) for i in range(32, 127)]          # ascii table handed to TLC
+PRINTABLE = [chr(i) for i in range(32, 256)]          # character table handed to TLC: every byte from 32 on
+NIDX = len(PRINTABLE) - 1                              # (the codes of the catalogue are printable ASCII, 1..94)
 TYPE_PACK = {"u8": "<B", "i8": "<b", "u16": "<H", "i16": "<h", "u32": "<I", "i32": "<i",
              "u64": "<Q", "i64": "<q"}
 
@@ -359,16 +360,22 @@ def assumption_failed(out, name):
         ln.startswith("ASSUME") for ln in src[decl[0]:int(m.group(1))])
 
 
-def neighbours(cat, mc):
+def neighbours(cat, mc, nidx=94):
     """unlisted codes of model mc within edit distance 1 of a listed code (of any model)"""
     listed = {(m, e["c"], e["v"]) for m in cat for e in cat[m]["events"]}
     out = set()
-    rng94 = range(1, 95)
+    rng94 = range(1, nidx + 1)
     for (m, c, v) in listed:
         if m == mc:
             for x in rng94:
                 out.add((c, x))
                 out.add((x, v))
+            # single-bit changes of both bytes, and the images with bit 7 set
+            for b in range(8):
+                for (c2, v2) in ((((c + 32) ^ (1 << b)) - 32, v), (c, ((v + 32) ^ (1 << b)) - 32),
+                                 (((c + 32) ^ (1 << b)) - 32, ((v + 32) ^ (1 << b)) - 32)):
+                    if 1 <= c2 <= NIDX and 1 <= v2 <= NIDX:
+                        out.add((c2, v2))
         else:
             out.add((c, v))           # the model character substituted
     return {k for k in out if (mc, k[0], k[1]) not in listed}
@@ -401,7 +408,11 @@ def _main(ck, bdir, cat, rng, scratch, fast, tier):
             for k, vec in enumerate(vecs):
                 dcases.append({"id": len(dcases), "mc": mc, "c": e["c"], "v": e["v"], "vec": k,
                                "args": vec, "payload": stored_payload(e, vec)})
-    inp = {"ascii": PRINTABLE, "models": tlc_models(cat),
+    # quick: the printable square exhaustively + chosen codes outside it; thorough: every byte pair
+    nidx = 94 if tier == "quick" else NIDX
+    extra = {mc: sorted(k for k in neighbours(cat, mc, nidx) if k[0] > nidx or k[1] > nidx) for mc in cat}
+    inp = {"ascii": PRINTABLE, "nidx": nidx, "extra": [{"mc": mc, "pairs": [list(k) for k in extra[mc]]} for mc in sorted(cat)],
+           "models": tlc_models(cat),
            "observed": [{"mc": o["mc"], "name": o["name"], "events": [{"sig": x["sig"], "text": x["text"]} for x in o["events"]]}
                         for o in observed],
            "decode": [{k: d[k] for k in ("id", "mc", "c", "v", "payload")} for d in dcases]}
@@ -427,7 +438,7 @@ def _main(ck, bdir, cat, rng, scratch, fast, tier):
             raise core.MachineryError("negative configuration %s was not refuted (%s)\n%s" % (cfg, why, nr.out[-1500:]))
     lines = {}
     for mc, r in zip(chars, runs):
-        ck.add_tlc(r, "Catalogue/Catalogue.cfg model %s (%s): witness contexts + 94 x 94 code space%s"
+        ck.add_tlc(r, "Catalogue/Catalogue.cfg model %s (%s): witness contexts + 223 x 223 code space (bytes 33..255)%s"
                    % (mc, cat[mc]["name"], " + listing + decoding" if mc == static_mc else ""))
         if r.violated:
             ck.violation("Catalogue.tla (model %s): %s violated: the committed catalogue and the reference semantics disagree"
@@ -483,7 +494,8 @@ def _main(ck, bdir, cat, rng, scratch, fast, tier):
     acc = {(a["mc"], a["c"], a["v"]) for a in lines.get("ACC", [])}
     listed = {(mc, e["c"], e["v"]) for mc in cat for e in cat[mc]["events"]}
     canon = sysrec["canon"]
-    space = [(mc, c, v) for mc in cat for c in range(1, 95) for v in range(1, 95)]
+    space = [(mc, c, v) for mc in cat for c in range(1, nidx + 1) for v in range(1, nidx + 1)]
+    space += [(mc, c, v) for mc in cat for (c, v) in extra[mc]]
     if summ["probes"] != len(space) or len(space) - len(listed) - len(acc) != summ["expect_reject"]:
         raise core.MachineryError("Catalogue.tla: verdict counts do not cover the code space: %s" % summ)
     ohe = [e for e in cat["O"]["events"] if e["mcv"] == "OHe"]
@@ -500,7 +512,7 @@ def _main(ck, bdir, cat, rng, scratch, fast, tier):
     if tier == "quick":
         near = set()
         for mc in cat:
-            near |= {(mc, c, v) for (c, v) in neighbours(cat, mc)}
+            near |= {(mc, c, v) for (c, v) in neighbours(cat, mc, nidx)}
         near |= acc
         rest = sorted(set(unl) - near)
         sel = sorted(near) + rng.sample(rest, min(5000, len(rest)))
@@ -519,7 +531,7 @@ def _main(ck, bdir, cat, rng, scratch, fast, tier):
             if e["args"]:
                 sib.setdefault(e["c"], []).append(e)
         for c, es in sorted(sib.items()):
-            for v in range(1, 95):
+            for v in range(1, nidx + 1):
                 key = (mc, c, v)
                 if key in listed:
                     continue
@@ -638,7 +650,7 @@ def _main(ck, bdir, cat, rng, scratch, fast, tier):
         "at most %s open region, histories up to 8 events)" % 1,
     ]
     return ck.finish(rule="one ovniemu run per probe: every listed event in its TLC witness context, unlisted codes "
-                          "(quick: edit distance 1 of a listed code + excepted + 5000 sampled; thorough: all of 8 x 94 x 94) "
+                          "(quick: edit distance 1 of a listed code + excepted + 5000 sampled; thorough: all of 8 x 223 x 223) "
                           "plus payload-shaped variants; one ovnidump comparison per (listed event, argument vector: 4 fixed + 4 "
                           "(thorough 60) seeded random); "
                           "distinct by (kind, code); all are non-trivial except decodings of events without arguments")
